@@ -170,7 +170,7 @@ func lookupLoud(c *core.Ctx) {
 			c.Undecided("lookup-loud", name, 0, "anchor not found")
 			continue
 		}
-		an := c.Analyze(fn)
+		an := c.AnalyzeLoops(fn)
 		if problems(c, "lookup-loud", name, an) {
 			continue
 		}
@@ -308,16 +308,8 @@ func guardRules(c *core.Ctx) {
 			return t.Op == "field" && t.Aux == "Type" && t.Args[0].Op == "field" && t.Args[0].Aux == "StructField" && paramOf(t.Args[0].Args[0], fn, 0)
 		}
 		typeOfNew := func(t *ir.Term, tp *types.TypeParam) bool {
-			// reflect.TypeOf(new(X)).Elem()
-			if !(t.Op == "pure" && strings.HasSuffix(t.Aux, ".Elem") && len(t.Args) == 1) {
-				return false
-			}
-			x := t.Args[0]
-			if !(x.Op == "pure" && x.Aux == "reflect.TypeOf" && len(x.Args) == 1 && x.Args[0].Op == "alloc") {
-				return false
-			}
-			pt, ok := x.Args[0].Typ.(*types.Pointer)
-			return ok && types.Identical(pt.Elem(), tp)
+			// the descriptor of the type parameter itself: reflect.TypeOf(new(X)).Elem(), reflect.TypeFor[X](), ...
+			return t.Op == "rtype" && t.Typ != nil && types.Identical(t.Typ, tp)
 		}
 		isFV := func(t *ir.Term) bool { return typeOfNew(t, tps[1]) }
 		okDom, okA, okB, okKind := true, true, true, true
